@@ -240,7 +240,7 @@ namespace AIToolbox {
                     // Parse next line
                     v = parseVector(lines_.at(++i_), D3);
                 } else {
-                    std::runtime_error("Parsing error: wrong number of arguments in '" + str + "'");
+                    throw std::runtime_error("Parsing error: wrong number of arguments in '" + str + "'");
                 }
                 for (const auto d1 : d1v)
                     for (const auto a : av)
